@@ -111,6 +111,9 @@ def cases(ctx):
     out = []
     out.append(history_case("add_schema", "sch.add_schema(Schema([Rule(('p',), Value.greater_than(t), cast={str: int})]), DataPath('a'))", L))
     out.append(history_case("add_schema.root", "sch.add_schema(Schema([Rule(('n',), Value.greater_than(t), cast={str: int})]), DataPath())", L))
+    out.append(history_case("add_schema.twice_same", "sub = Schema([Rule(('p',), Value.greater_than(t), cast={str: int}), Rule(('b',), Value.truthy())])\nsch.add_schema(sub, DataPath('a'))\nsch.add_schema(sub, DataPath('a'))", L))
+    out.append(history_case("add_schema.shared_rule", "common = Rule(('p',), Value.greater_than(t))\nsch.add_schema(Schema([common, Rule(('b',), Value.falsy())]), DataPath('a'))\nsch.add_schema(Schema([Rule(('p',), Value.greater_than(t))]), DataPath('a'))", L))
+    out.append(history_case("duplicate_rule_given", "sch = Schema([Rule(('a', 'b'), Value.equal_to(t)), Rule(('a', 'b'), Value.equal_to(t)), Rule(('s',), Value.equal_to(t))])", L))
     out.append(history_case("rules_edited", "sch.rules = sch.rules[:1] + [Rule(('n',), Value.is_instance(int), cast={str: int})]", L))
     out.append(history_case("rule_replaced", "sch.rules[0] = Rule(('n',), Value.not_equal_to(t), cast={str: int})", L))
     for n, names in enumerate(COMBOS):
